@@ -380,8 +380,10 @@ def _safe_header(string: str) -> str:
 
 def _py_serialize_headers(status_line: str, headers: "CIMultiDict[str]") -> bytes:
     _safe_header(status_line)
-    headers_gen = (_safe_header(k) + ": " + _safe_header(v) for k, v in headers.items())
-    line = status_line + "\r\n" + "\r\n".join(headers_gen) + "\r\n\r\n"
+    headers_gen = (
+        _safe_header(k) + ": " + _safe_header(v) + "\r\n" for k, v in headers.items()
+    )
+    line = status_line + "\r\n" + "".join(headers_gen) + "\r\n"
     return line.encode("utf-8")
 
 
